@@ -109,6 +109,22 @@ def run(ctx):
                       % (g["clause"], sig, g["n"], d.get("path"), d.get("src")),
                       dict(binding="B1 replay + B3 acceptor", signature=sig, clause=g["clause"], occurrences=g["n"], observation=d,
                            schedule=[s["a"] for s in path["steps"]] if path else None))
+    # 5. the model's environment assumption "no stale disconnect reaches the supervisor" (MaxStale = 0), observed end to end
+    sobs = os.path.join(ctx.tmp, "stale.ndjson")
+    ctx.run_vh(["stale", "--out", sobs, "--reps", 2 if ctx.quick else 8], timeout=900)
+    sres = common.oracle_pass(ctx, sobs, "OracleStale", nchunks=1, timeout=600)
+    sfaults = 0
+    for (ln, text, why) in sres["rejections"]:
+        d = json.loads(text)
+        if why == "HarnessFault":
+            sfaults += 1
+            continue
+        sig = "c05:stale:%s:%s" % (why, d["role"])
+        ctx.violation("an abandoned receive goroutine of the previous generation disturbed the Selected successor (%s): %s" % (sig, common.short(d, 500)),
+                      dict(binding="B2 gated e2e (blocked handler across a bounded teardown)", signature=sig, observation=d))
+    if sfaults > sres["lines"] // 2:
+        raise common.Inconclusive("stale-generation scenarios could not be set up (%d of %d)" % (sfaults, sres["lines"]))
+    ctx.cov["stale_generation_scenarios"] = sres["lines"] - sfaults
     ctx.cov.update(states=base["distinct"], transitions=base["generated"], traces_validated_against_impl=len(paths),
                    model_constants=consts, simulation_constants=simc, design_variant=DESIGN,
                    model_properties=model_findings,
